@@ -1,0 +1,56 @@
+//! Verification hooks (cargo feature `verif-hooks`, off by default).
+//!
+//! Add-only observers used by the external model-checking harness: they record what the
+//! library is about to do and never steer it.
+
+use std::cell::RefCell;
+
+/// One expectation vector handed to the syntax-error formatter.
+#[derive(Debug, Clone, PartialEq, Eq)]
+pub struct ExpectedRecord {
+    /// `InvalidToken`, `UnrecognizedEOF`, `UnrecognizedToken`, `ExtraToken` or `User`
+    pub variant: &'static str,
+    /// The raw `expected` vector of the generated parser (empty for variants without one)
+    pub expected: Vec<String>,
+}
+
+/// One observation of the iteration order of a hash container, taken right before the
+/// library iterates over that same (unmodified) container.
+#[derive(Debug, Clone, PartialEq, Eq)]
+pub struct OrderRecord {
+    pub site: &'static str,
+    pub keys: Vec<String>,
+}
+
+thread_local! {
+    static EXPECTED: RefCell<Vec<ExpectedRecord>> = RefCell::new(Vec::new());
+    static ORDERS: RefCell<Vec<OrderRecord>> = RefCell::new(Vec::new());
+}
+
+pub(crate) fn record_expected(variant: &'static str, expected: &[String]) {
+    EXPECTED.with(|e| {
+        e.borrow_mut().push(ExpectedRecord {
+            variant,
+            expected: expected.to_vec(),
+        })
+    });
+}
+
+/// Drain the expectation vectors recorded on this thread, in emission order.
+pub fn take_expected() -> Vec<ExpectedRecord> {
+    EXPECTED.with(|e| std::mem::take(&mut *e.borrow_mut()))
+}
+
+pub(crate) fn record_order<I, K>(site: &'static str, keys: I)
+where
+    I: IntoIterator<Item = K>,
+    K: std::fmt::Debug,
+{
+    let keys = keys.into_iter().map(|k| format!("{k:?}")).collect();
+    ORDERS.with(|o| o.borrow_mut().push(OrderRecord { site, keys }));
+}
+
+/// Drain the hash-iteration orders recorded on this thread, in observation order.
+pub fn take_orders() -> Vec<OrderRecord> {
+    ORDERS.with(|o| std::mem::take(&mut *o.borrow_mut()))
+}
